@@ -302,6 +302,29 @@ def mixed_cases(rng, tier):
             d = rng.choice([2, 2, 1, 3]) if L <= 3 else 2
             out.append(make_case(rng, 'scaled:' + name, L, d, ['float', 'complex'][k % 2], nm, no, ex, Dmps=2, Dmpo=2,
                                  mode=rng.choice(['zero', 'charged']), scale_exp=sexp))
+    # per-SITE dtypes inside one operand: real / integer boundary tensors around complex interior tensors and the other way round
+    for L in (3, 4, 5):
+        for (name, nm, no, ex) in ops:
+            e = ex
+            if name == 'add_mps':
+                e = ['add_mps', list(ALPHAS[(L + 1) % len(ALPHAS)]), P0, P1]
+            if name == 'add_mpo':
+                e = ['add_mpo', list(ALPHAS[L % len(ALPHAS)]), O0, O1]
+            c = make_case(rng, 'sitemix:' + name, L, rng.choice([2, 2, 3]) if L <= 3 else 2, 'complex', nm, no, e, Dmps=2, Dmpo=2,
+                          mode=rng.choice(['zero', 'charged']))
+            sd = {'mps': [], 'mpo': []}
+            for key in ('mps', 'mpo'):
+                for m in c[key]:
+                    pat = [rng.choice(['float', 'int', 'complex']) for _ in range(L)]
+                    if rng.random() < 0.6:
+                        pat[0] = rng.choice(['float', 'int'])
+                        pat[rng.randrange(1, L - 1)] = 'complex'
+                    for a, t in zip(m['A'], pat):
+                        if t != 'complex':
+                            a.pop('im', None)
+                    sd[key].append(pat)
+            c['sitedtypes'] = sd
+            out.append(c)
     # all-zero operands
     for L in (1, 3):
         c = make_case(rng, 'zero:mps+', L, 2, 'float', 2, 0, ['-', P0, P1], mode='zero')
@@ -514,13 +537,14 @@ def _build(case):
             x = (x.astype(np.float64) if dt == 'int' else x) * 2.0 ** k      # exact: power of two
         return x
     mpss, mpos = [], []
-    for m, dt in zip(case['mps'], dts['mps']):
+    sd = case.get('sitedtypes') or {}
+    for j, (m, dt) in enumerate(zip(case['mps'], dts['mps'])):
         p = ptn.MPS(m.get('qd', case['qd']), m['qD'], fill='postpone')
-        p.A = [arr(a, dt) for a in m['A']]
+        p.A = [arr(a, sd['mps'][j][i] if sd else dt) for i, a in enumerate(m['A'])]
         mpss.append(p)
-    for m, dt in zip(case['mpo'], dts['mpo']):
+    for j, (m, dt) in enumerate(zip(case['mpo'], dts['mpo'])):
         o = ptn.MPO(m.get('qd', case['qd']), m['qD'], fill='postpone')
-        o.A = [arr(a, dt) for a in m['A']]
+        o.A = [arr(a, sd['mpo'][j][i] if sd else dt) for i, a in enumerate(m['A'])]
         mpos.append(o)
     return mpss, mpos
 
